@@ -161,6 +161,7 @@ def base_streams():
         out.append(("hq_minimal_two_sequences", out[0][1] + out[1][1]))
         out += tiny_streams()
         out += mixed_parameter_streams(rnd)
+        out.append(("empty_stream", b""))
         _BASE = out
     return _BASE
 
